@@ -72,6 +72,29 @@ def gen(tier, rng):
                                                 cpu=cpu, src_c=content(pt, kind, n), src_lay={"k": "image_ref", "guard": 1},
                                                 dst_lay={"k": "slice", "guard": 1}, log=log,
                                                 chk=("pipeline", "ret_ok", "outside") + ((chk,) if cpu != "none" else ()), g=g, echo=echo))
+    # single-pass plans with a non-zero row / column offset (integer crop origin, one extent unchanged): the kernels'
+    # `offset` argument and their 4-row / 2-row block iterators start inside the source
+    for pt in rz.ALL_PT:
+        for (dw, dh) in ((5, 5), (9, 6), (16, 7), (33, 3), (3, 9), (70, 2)):
+            for plan in ("h", "v"):
+                for flt in ("Lanczos3", "Bilinear", "Box", "CatmullRom"):
+                    n += 1
+                    if tier == "quick" and n % 2:
+                        continue
+                    off = 1 + n % 3
+                    if plan == "h":
+                        box = (off, 1 + n % 4, dw * 2 + 1 if n % 2 else max(1, dw // 2), dh)
+                    else:
+                        box = (1 + n % 4, off, dw, dh * 2 + 1 if n % 2 else max(1, dh // 2))
+                    sw, sh = box[0] + box[2] + 1 + n % 2, box[1] + box[3] + n % 3
+                    alpha = n % 3 == 0
+                    chk, log, echo = tol_class(pt, alpha)
+                    g += 1
+                    for cpu in rz.CPUS:
+                        cases.append(rz.resize_case(pt, sw, sh, dw, dh, alg=["conv", "interp"][n % 2], flt=flt, alpha=alpha, box=box, Q=1, cpu=cpu,
+                                                    src_c=content(pt, "rand", n), src_lay={"k": "image_ref", "guard": 1},
+                                                    dst_lay={"k": "crop_mut", "pad": [1, 1, 1, 2], "guard": 1} if n % 2 else {"k": "slice", "guard": 1},
+                                                    log=log, chk=("pipeline", "ret_ok", "outside") + ((chk,) if cpu != "none" else ()), g=g, echo=echo))
     # custom filters that force other fixed-point precisions (sum |w| < 4: max weight 1 + 2a)
     for pt in ("U8", "U8x2", "U8x3", "U8x4", "U16", "U16x2", "U16x3", "U16x4"):
         for ai, a in enumerate((0.0, 0.2, 0.45, 0.7)):
